@@ -104,8 +104,10 @@ func (w *pushHijackWriter) Hijack() (net.Conn, *bufio.ReadWriter, error) {
 func writerVariant(kind string, rec *recorder) http.ResponseWriter {
 	switch kind {
 	case "flusher":
+		rec.lazyHdr = true
 		return &flushWriter{rec: rec}
 	case "full":
+		rec.lazyHdr = true
 		return &fullWriter{flushWriter{rec: rec}}
 	case "push-hijack":
 		return &pushHijackWriter{rec}
